@@ -24,7 +24,7 @@ GeomS    == <<"plain", "b-nonzero", "a2-positive", "a2-negative", "a1-negative",
 OffS     == <<"zero", "quarter", "random">>
 W16S     == <<0, 4, 8, 12, 16, 5>>
 StackS   == <<"bare", "tool", "base", "base+tool", "frame", "tool>base", "pgram", "tool>pgram", "pgram>pgram", "pgram>tool", "pgram>base+tool">>
-Stack5S  == <<"bare", "axial-tool", "base", "base+axial-tool", "axial-frame", "base+axial-frame">>
+Stack5S  == <<"bare", "axial-tool", "base", "base+axial-tool", "axial-frame", "base+axial-frame", "pgram5", "pgram5>base", "pgram5>base+axial-tool">>
 
 VARIABLES en, df, po, pr, li, gx
 vars == <<en, df, po, pr, li, gx>>
@@ -46,5 +46,5 @@ Emit ==
                  prev |-> IF IsCont(en) THEN PrevS[pr] ELSE "none", limits |-> LimS[li],
                  geom |-> GeomS[g], signs |-> (id * 37 + 11 * g) % 64, offsets |-> OffS[((id + g) % 3) + 1],
                  w16 |-> IF li = 1 THEN 0 ELSE W16S[((id \div 6 + g) % 6) + 1],
-                 stack |-> IF Five THEN Stack5S[((id + g) % 6) + 1] ELSE StackS[((id + g) % 11) + 1]]))
+                 stack |-> IF Five THEN Stack5S[((id + g) % 9) + 1] ELSE StackS[((id + g) % 11) + 1]]))
 =============================================================================
